@@ -340,6 +340,67 @@ def check_routes(cx, chk):
         chk.anchor_missing("C16.routes", "peginator_macro crate")
 
 
+def check_builder(cx, chk):
+    """The build-script route gets its settings through a builder: `Compile::file(..).derives(..).user_context_type(..)...`.
+    Same settings must mean the same code whatever the order of the calls, so every builder method changes what it is about and
+    leaves the rest of the value as it was: read off its summary, every field of the returned value (settings fields included) is
+    the receiver's, or is built from the method's arguments / from the receiver's old value - never reset to a default or constant
+    while another field is being set."""
+    from .. import sem
+    from . import semspec
+    cg = cx.codegen
+    names = semspec.adt_fields(cg, "buildscript::Compile")
+    snames = semspec.adt_fields(cg, "common::CodegenSettings") or []
+    if not names:
+        chk.anchor_missing("C16.routes", "struct Compile")
+        return
+    S = sem.Sem(cx, cg, inline=lambda p_: False)
+    P1 = mir.mk("param", 1)
+    n = 0
+    for p, f in sorted(cg.fns.items()):
+        if "mir" not in f or "{closure" in p or "buildscript::Compile::" not in p or f.get("vis") != "Public":
+            continue
+        ins = f.get("inputs") or []
+        if not ins or not ins[0].endswith("Compile") or ins[0].startswith("&") or not (f.get("output") or "").endswith("Compile"):
+            continue
+        try:
+            sm = S.summarize(p)
+        except sem.SemLimit:
+            continue
+        if sm is None or not sm.complete:
+            continue
+        n += 1
+        bad = []
+        for l in sm.returns:
+            changed = []
+            for fn_ in names:
+                v = sem.get_field(l.ret, fn_)
+                old = mir.mk("field", P1, fn_)
+                subs = [(fn_, v, old)]
+                if fn_ == "settings" and snames:
+                    subs = [("settings." + sn, sem.get_field(v, sn), mir.mk("field", old, sn)) for sn in snames]
+                for (nm, nv, ov) in subs:
+                    if nv == ov:
+                        continue
+                    from_args = any(x[0] == "param" and x[1] >= 2 for x in walk(nv))
+                    from_old = any(x == ov or x == old for x in walk(nv))
+                    changed.append((nm, nv, from_args or from_old))
+            if len(changed) > 1:
+                for (nm, nv, okk) in changed:
+                    if not okk:
+                        bad.append((nm, nv))
+        tag = "builder %s" % last(p)
+        if bad:
+            nm, nv = bad[0]
+            chk.violation("C16.routes", "%s resets %s" % (tag, nm),
+                          "Compile::%s sets %s to %s - neither the receiver's value nor built from the method's arguments - while it changes another field: "
+                          "the build script's settings then depend on the order of the builder calls (`.user_context_type(..).derives(..)` loses the user "
+                          "context) and the same settings no longer give the same code on every route" % (last(p), nm, mir.show(nv)[:80]), cx.site(cx.body(cg, p)))
+        else:
+            chk.ok("C16.routes", tag, {"method": last(p), "rule": "every field is the receiver's, or built from the arguments / the old value"})
+    chk.floor("C16.routes", "builder methods of Compile", n, 3)
+
+
 def run(cx, chk):
     chk.explanation = (
         "Determinism argued from the absence of its only possible causes in the generator's own code: no call iterates an unordered "
@@ -351,6 +412,7 @@ def run(cx, chk):
     check_order(cx, chk)
     check_pure(cx, chk)
     check_routes(cx, chk)
+    check_builder(cx, chk)
     # the macro route's expansion and the build-script route's output for the same text denote the same parser / types
     from . import lift_rules
     mt = [i.name for i in cx.instances() if i.crate.name == "simple"]
